@@ -12,6 +12,7 @@ EXPLANATION = (
     "prev were redirected, the sentinel is forgotten, and a node is only destroyed after the end-of-list test on that very node was negative (sentinels are never freed); (R5) CQueue::drop empties the bucket vector before the allocator field is "
     "dropped and DualLinkedList::drop pops until None. "
     "(R3 also: a freed block is recorded with exactly the extent that was handed out for it.) "
+    '(R6) a fresh page is registered as free with exactly the size requested from the system allocator, and released with the layout it was requested with. '
     "Decides these necessary conditions only; not non-overlap / reuse-after-release over histories.")
 ASSUMPTIONS = ["the global allocator returns page_size-aligned pages", "raw-pointer aliasing is as the SAFETY comments state"]
 
